@@ -31,6 +31,7 @@ def plan(tier):
         mods.append((xgen.parser_module("c12_spacing_k3", "SP8", 8, 3, "spacing"), 400, False))
         mods.append((xgen.corpus_spacing_module("c12_corpus_spacing", 40, step=5, maxgap=12), 300, False))
         mods.append((xgen.parser_module("c12_entry_k2", "CHUNKS", NCH, 2, "entry", fixed=0, families=FAMILIES), 300, False))
+        mods.append((xgen.api_verbatim_module("c12_api", ["sum", "id", "dot", "get_at", "solve_axes"], len(L.API_TOK), 3), 400, False))
         mods.append((xgen.h1_module("c12_h1", 3), 60, True))
     else:
         mods.append((xgen.parser_module("c12_total_k4", "TOK17", 17, 4, "total"), 3000, False))
@@ -39,6 +40,7 @@ def plan(tier):
         mods.append((xgen.parser_module("c12_spacing_k3", "CHUNKS", NCH, 3, "spacing"), 3000, False))
         mods.append((xgen.parser_module("c12_entry_k3", "CHUNKS", NCH, 3, "entry", fixed=1, families=FAMILIES), 3000, False))
         mods.append((xgen.corpus_spacing_module("c12_corpus_spacing", 40, step=2, maxgap=40), 3000, False))
+        mods.append((xgen.api_verbatim_module("c12_api", ["sum", "id", "dot", "get_at", "softmax", "solve_axes"], len(L.API_TOK), 4), 3000, False))
         mods.append((xgen.h1_module("c12_h1", 4), 600, True))
     return mods
 
@@ -61,6 +63,11 @@ def text_of_call(cond):
         return None, None
     if name == "cond_anystring":
         return args[0] if args else None, None
+    if name.startswith("cond_apiverbatim"):
+        try:
+            return "".join(L.API_TOK[i] for i in args if isinstance(i, int)), None
+        except Exception:  # noqa: BLE001
+            return None, None
     if name.startswith("cond_corpus_spacing"):
         try:
             d, g1, g2 = args[:3]
@@ -151,7 +158,7 @@ def main():
             "quick": "total: 13 tokens^3 and 9 tokens^4; re-print: 19 chunks^2 and 13 chunks^3; spacing: 19 chunks^2 x 2 flags, 8 chunks^3 x 3 flags and 40 corpus descriptions x 2 redundant-gap positions; el_op re-print through 8 entry families: 19 chunks^2; arbitrary str <= 3 chars (60 s, bug finding)",
             "thorough": "total: 17^4 and 12^5; re-print 19^4; spacing 19^3 and the corpus with all gap pairs; entry 19^3 x 8; arbitrary str <= 4 chars (600 s)",
         }[tier],
-        "functions_encoded": ["einx._src.namedtensor.stage1.parse.parse_op", "stage1.tree.*.__str__", "einx_from_namedtensor._parse_op/_to_el_expr/op.inner (up to the solver cut)", "frontend.errors.SyntaxError/SemanticError constructors", "namedtensor.util.ExpressionIndicator"],
+        "functions_encoded": ["einx._src.namedtensor.stage1.parse.parse_op", "frontend.api op wrappers + util.lru_cache._freeze_args (description handed to the parser verbatim)", "stage1.tree.*.__str__", "einx_from_namedtensor._parse_op/_to_el_expr/op.inner (up to the solver cut)", "frontend.errors.SyntaxError/SemanticError constructors", "namedtensor.util.ExpressionIndicator"],
     }
     rep.assumptions = [
         "the sympy-backed solver is cut (stubbed to raise a sentinel): everything before it runs for real",
